@@ -779,7 +779,10 @@ SKIP_RECORD_PARSE:
             {
                 ssl->expectedEpoch[0] = ssl->rec.epoch[0];
                 ssl->expectedEpoch[1] = ssl->rec.epoch[1];
-                goto ADVANCE_TO_APP_DATA;
+                /* The record still goes through the anti-replay window
+                   (which starts a new window for the new epoch): a second
+                   copy of it must not be delivered again */
+                goto CHECK_REPLAY_WINDOW;
             }
 
             /* Now just skip the record as a duplicate */
@@ -843,6 +846,7 @@ SKIP_RECORD_PARSE:
             return MATRIXSSL_SUCCESS;
         }
 
+CHECK_REPLAY_WINDOW:
         if (dtlsChkReplayWindow(ssl, ssl->rec.rsn) != 1)
         {
             psTraceIntDtls("Seen this record before %d\n", ssl->rec.rsn[5]);
